@@ -491,3 +491,17 @@ Fixpoint header_prefix (lines : list (list N)) : list (list N) :=
   end.
 
 Definition read_header (lines : list (list N)) : option vheader := parse_header (header_prefix lines).
+
+(* the lines this model does not cover (a textual, conservative criterion shared with the
+   harness): a record whose key is none of the six standard keys and is META or PEDIGREE or has a
+   value starting with '<' (a structured "other" record, from 4.3 or when it contains ID=) *)
+Definition unmodelled_line (line : list N) : bool :=
+  match p_record line with
+  | Some (key, v) =>
+      negb (bytes_eqb key k_fileformat || bytes_eqb key k_INFO || bytes_eqb key k_FILTER ||
+            bytes_eqb key k_FORMAT || bytes_eqb key k_ALT || bytes_eqb key k_contig) &&
+      (bytes_eqb key k_META || bytes_eqb key k_PEDIGREE || match v with 60 :: _ => true | _ => false end)
+  | None => false
+  end.
+
+Definition unmodelled_lines (lines : list (list N)) : bool := existsb unmodelled_line lines.
